@@ -8,7 +8,8 @@ import fcntl, os, subprocess, sys, hashlib, json, time
 
 ROOT = os.path.dirname(os.path.dirname(os.path.abspath(__file__)))
 REPO = os.environ.get("VERIF_REPO", "/repo")
-BUILD = os.path.join(ROOT, "build")
+_TAG = os.environ.get("VERIF_BUILD_TAG", "")
+BUILD = os.path.join(ROOT, "build" + ("-" + _TAG if _TAG else ""))
 GUARD = "GMSSL_VERIF"
 
 SAN = "-fsanitize=address,bounds,null,object-size,pointer-overflow -fno-sanitize-recover=all -fno-omit-frame-pointer"
